@@ -480,6 +480,34 @@ func (e Element) hasNonWhitespaceChildren() bool {
 	return false
 }
 
+// indentChildren reports whether the children are written on lines of their
+// own. That is the case if they were on several lines in the source, and also
+// if writing them produces several lines anyway: a child that carries no
+// trailing whitespace information (comments, component calls, script and style
+// elements, ...) is always followed by a line break (see writeNodes), and a
+// child element that is written on several lines spans lines itself. Deciding
+// it here makes the first formatting pass produce what a second one would.
+func (e Element) indentChildren() bool {
+	if e.IndentChildren {
+		return true
+	}
+	for _, c := range e.Children {
+		switch c := c.(type) {
+		case Whitespace:
+			continue
+		case Element:
+			if c.hasNonWhitespaceChildren() && c.indentChildren() {
+				return true
+			}
+		default:
+			if _, isTrailer := c.(WhitespaceTrailer); !isTrailer {
+				return true
+			}
+		}
+	}
+	return false
+}
+
 var blockElements = map[string]struct{}{
 	"address": {}, "article": {}, "aside": {}, "body": {}, "blockquote": {}, "canvas": {}, "dd": {}, "div": {}, "dl": {}, "dt": {}, "fieldset": {}, "figcaption": {}, "figure": {}, "footer": {}, "form": {}, "h1": {}, "h2": {}, "h3": {}, "h4": {}, "h5": {}, "h6": {}, "head": {}, "header": {}, "hr": {}, "html": {}, "li": {}, "main": {}, "meta": {}, "nav": {}, "noscript": {}, "ol": {}, "p": {}, "pre": {}, "script": {}, "section": {}, "table": {}, "template": {}, "tfoot": {}, "turbo-stream": {}, "ul": {}, "video": {},
 	// Not strictly block but for the purposes of layout, they are.
@@ -550,7 +578,7 @@ func (e Element) Write(w io.Writer, indent int) error {
 		closeAngleBracketIndent = indent
 	}
 	if e.hasNonWhitespaceChildren() {
-		if e.IndentChildren {
+		if e.indentChildren() {
 			if err := writeIndent(w, closeAngleBracketIndent, ">\n"); err != nil {
 				return err
 			}
@@ -651,7 +679,7 @@ func isBlockNode(node Node) bool {
 	case ForExpression:
 		return true
 	case Element:
-		return n.IsBlockElement() || n.IndentChildren
+		return n.IsBlockElement() || n.indentChildren()
 	}
 	return false
 }
